@@ -19,6 +19,7 @@ var ErrExecutorNotRunning = errors.New("executor not running")
 type ThreadPoolExecutor struct {
 	done    chan struct{}
 	wg      sync.WaitGroup
+	guard   sync.RWMutex  // shared: a submitter from its state check to its send; exclusive: the state flip of Shutdown
 	state   fatchoy.State //
 	queue   chan Runnable // work queue
 	nworker int           //
@@ -41,6 +42,8 @@ func NewAsyncExecutor(capacity int) Executor {
 
 func (e *ThreadPoolExecutor) Execute(r Runnable) error {
 	e.start()
+	e.guard.RLock()
+	defer e.guard.RUnlock()
 	if e.state.Get() != fatchoy.StateRunning {
 		return ErrExecutorNotRunning
 	}
@@ -49,7 +52,10 @@ func (e *ThreadPoolExecutor) Execute(r Runnable) error {
 }
 
 func (e *ThreadPoolExecutor) Shutdown() {
-	if !e.state.CAS(fatchoy.StateRunning, fatchoy.StateShutdown) {
+	e.guard.Lock() // no submitter is between its state check and its send
+	var running = e.state.CAS(fatchoy.StateRunning, fatchoy.StateShutdown)
+	e.guard.Unlock()
+	if !running {
 		return
 	}
 	close(e.done)
@@ -80,8 +86,8 @@ func (e *ThreadPoolExecutor) start() {
 			runtime.Gosched()
 		}
 
-	case fatchoy.StateRunning:
-		return
+	case fatchoy.StateRunning, fatchoy.StateShutdown, fatchoy.StateTerminated:
+		return // Execute reports ErrExecutorNotRunning for the latter two
 
 	default:
 		log.Panicf("invalid executor state %v", state)
@@ -104,7 +110,15 @@ func (e *ThreadPoolExecutor) worker(i int, ready chan<- struct{}) {
 			e.run(r)
 
 		case <-e.done:
-			return
+			// run what was accepted before the shutdown, then leave
+			for {
+				select {
+				case r := <-e.queue:
+					e.run(r)
+				default:
+					return
+				}
+			}
 		}
 	}
 }
